@@ -213,3 +213,28 @@ PLANS["C01"] = dict(
     assumptions=["a float64 is identified with its bit pattern (8 bytes) by the harness interning"],
     trusted_base=["TLC 2026.09.04", "CommunityModules Json/IOUtils", "harness bit interning", "encoding/hex"],
 )
+
+# ---- C06 -------------------------------------------------------------------------------------------
+
+
+def run_c06(ctx):
+    ctx.mc("CoreValueMC", "CoreValueMC_%s.cfg" % ctx.tier, note="box operations satisfy the lattice laws on all pairs/triples incl. the empty bound; reversal/orientation/tight-bound laws on small rings")
+    shards = ctx.gen("core")
+    ctx.validate("Core_Trace", shards)
+
+
+def sig_c06(ev):
+    if ev.get("_alt"):
+        return "orb.Clone:typed-nil-slice-becomes-nil-interface"
+    return "%s:%s" % (ev.get("k"), ev.get("fn", "")) if ev.get("k") not in ("panic", "timeout") else sig_default(ev)
+
+
+PLANS["C06"] = dict(
+    run=run_c06, signature=sig_c06,
+    technique="TLA+ value model (structural equality, tight bound, set-theoretic box operations, shoelace orientation); TLC checks the lattice laws on the model and validates traces of real Clone/Equal/Bound/Union/Extend/Contains/Intersects/Reverse/Orientation calls incl. every single-vertex in-place edit",
+    level_text="TLC checks the lattice laws (idempotent, commutative, associative, empty = identity, contains/extends/intersects consistency) for all pairs and triples of boxes over 3 (quick) / 4 (thorough) ranks including the empty bound, and reversal/orientation/tight-bound laws for all rings of <=4 vertices on a small grid. For seeded shapes of all nine kinds with nil and empty slices, empty members first/last, single-vertex members and nested collections, the harness records: the clone (generic and typed), the interned backing-array addresses of both values, and the value of both after editing each vertex of the clone and then of the original in place; orb.Equal on copied / perturbed / re-nested / truncated pairs and triples; Bound(); the Bound methods on pairs/triples; Reverse and Orientation. TLC requires each to equal the model (clone equal and alias-free, Equal = structural equality and an equivalence, Bound = tight box of the counting vertices, method results = box operations, double reversal = identity, orientation = shoelace sign negated by reversal).",
+    level_note="Small integer coordinates (exact); NaN is not generated (== is not reflexive on it). Typed-nil members inside collections are not generated. Trusted: TLC, Json module, unsafe.SliceData address interning.",
+    rule="one event = one observation (clone with all its single-vertex edits, an Equal pair/triple, a Bound, a Bound-method tuple, a Reverse, an Orientation); non-trivial = at least one vertex edit / non-empty bound / orientation != 0 / all Equal and Bound-method events; distinct = distinct event text",
+    assumptions=["a slice's backing array is identified by its data pointer (sub-slices of one array would need offsets; Clone never sub-slices)"],
+    trusted_base=["TLC 2026.09.04", "CommunityModules Json/IOUtils", "unsafe.SliceData"],
+)
